@@ -165,6 +165,15 @@ def template_ok(m):
     return True
 
 
+def strict_ok(m):
+    """unique field names at every level (duplicates of different type are a type-mismatch error in the C++ parser)"""
+    what, fields = m
+    names = [f[0] for f in fields]
+    if len(set(names)) != len(names):
+        return False
+    return all(strict_ok(x) for f in fields if f[2] == "MSGG" for x in f[3])
+
+
 # ---------------------------------------------------------------------------- corruptions
 def boundary_values(orig, rem, total):
     vals = [0, 1, 2, 3, 4, 7, 8, 11, 12, 13, orig - 1, orig + 1, rem - 1, rem, rem + 1, total - 1, total, total + 1,
@@ -268,63 +277,95 @@ class CHECK(vlib.Check):
         big = (tier != "quick")
         out = []
         add = lambda stream, line: out.append((stream, line))
+        def some(seq, n):
+            seq = list(seq)
+            return seq if len(seq) <= n else rng.sample(seq, n)
 
         nvalid = 60 if not big else 400
         msgs = [gen_msg(rng, rng.choice([0, 1, 1, 2, 3])) for _ in range(nvalid)]
         encs = [enc_msg(m) for m in msgs]
-        small = [e for e in encs if len(e.b) <= 160]
+        strict = [strict_ok(m) for m in msgs]
+        small = [e for e in encs if 20 < len(e.b) <= 140]
+        C3 = ["msg|", "mini|", "micro|"]
 
-        # ---- 1. valid encodings to every Message parser
-        for e in encs:
+        # ---- 1. valid encodings to every Message parser ("v": unique names at every level, so every parser must accept)
+        for e, ok in zip(encs, strict):
             h = chunks_hex(bytes(e.b), word_cuts(e))
-            add("valid", "msg|" + h)
-            add("valid-c", "mini|" + h)
-            add("valid-c", "micro|" + h)
+            v = ",v|" if ok else "|"
+            add("valid", "msg" + v + h)
+            add("valid-c", "mini" + v + h)
+            add("valid-c", "micro" + v + h)
         # ---- 2. every truncation of small valid encodings
-        for e in small[: (12 if not big else 60)]:
+        for e in small[: (6 if not big else 60)]:
             b = bytes(e.b)
             for n in range(len(b)):
                 add("trunc", "msg|" + b[:n].hex())
-            for n in sorted(set(rng.sample(range(len(b)), min(len(b), 12)) + [o for (o, _) in e.marks] + [o + 3 for (o, _) in e.marks])):
+            for n in sorted(set(some(range(len(b)), 10) + [o for (o, _) in e.marks] + [o + 3 for (o, _) in e.marks])):
                 add("trunc-c", "mini|" + b[:n].hex())
                 add("trunc-c", "micro|" + b[:n].hex())
-        # ---- 3. every marked word replaced by boundary values
-        for e in encs[: (25 if not big else 150)]:
+        # ---- 3. every marked word replaced by boundary values (all values for a few encodings, a sample for the rest)
+        for idx, e in enumerate(encs[: (30 if not big else 200)]):
             b = bytes(e.b)
+            full = idx < (2 if not big else 30)
             for (o, kind) in e.marks:
                 orig = struct.unpack_from("<I", b, o)[0]
                 vals = boundary_values(orig, len(b) - o - 4, len(b))
                 if kind == "typecode":
                     vals = [v for v in TC.values() if v != orig] + [0, 0xFFFFFFFF, orig ^ 1]
-                if kind == "what":
+                if kind in ("what", "version"):
                     vals = vals[:2]
-                if not big:
-                    vals = vals if kind != "version" else vals[:4]
+                if not full:
+                    vals = some(vals, 3 if not big else 8)
                 for v in vals:
                     c = b[:o] + w32(v) + b[o + 4:]
                     h = chunks_hex(c, word_cuts(e))
                     add("word:" + kind, "msg|" + h)
-                    if rng.random() < (0.25 if not big else 0.6):
+                    if rng.random() < (0.3 if not big else 0.6):
                         add("word-c:" + kind, rng.choice(["mini|", "micro|"]) + h)
+        # ---- 3b. two-word conspiracies: (field length, item count) set to inconsistent pairs, boundary value planted in the word after
+        for e in encs[: (20 if not big else 150)]:
+            b = bytes(e.b)
+            mk = e.marks
+            for i, (o, kind) in enumerate(mk):
+                if kind != "fieldlen" or o + 12 > len(b):
+                    continue
+                nxt = mk[i + 1][1] if i + 1 < len(mk) and mk[i + 1][0] == o + 4 else None
+                rem = len(b) - o - 12
+                plant = [0, 1, 4, rem - 1, rem, rem + 1, rem + 4, 0x7FFFFFFF, 0x80000000, 0xFFFFFFFB, 0xFFFFFFFC, 0xFFFFFFFF, len(b)]
+                if nxt == "count":          # variable-sized items (strings, raw buffers): field length, item count, first item length
+                    combos = [(el, ni, pv) for el in [0, 1, 2, 3, 4, 5, 6, 7, 8, 9, 11, 12, 13, 16] for ni in [0, 1, 2, 3, 0x40000000, 0xFFFFFFFF] for pv in plant]
+                    pick = [(4, 1, rem + 1), (4, 1, 0xFFFFFFFF), (5, 1, rem + 4), (8, 1, rem), (8, 2, 0), (7, 1, 0x7FFFFFFF)] + some(combos, 10 if not big else 60)
+                    for (el, ni, pv) in pick:
+                        c = b[:o] + w32(el) + w32(ni) + w32(pv) + b[o + 12:]
+                        for t in C3:
+                            add("pair:len-count", t + chunks_hex(c, word_cuts(e)))
+                elif nxt == "sublen":       # sub-Messages: field length, first sub-Message length, (version word of the sub-Message)
+                    combos = [(el, sl) for el in [0, 1, 3, 4, 5, 8, 12, 15, 16, 17, rem + 8, rem + 9, 0xFFFFFFFF] for sl in [0, 1, 11, 12, 13, rem + 4, rem + 5, rem + 3, 0x7FFFFFFF, 0xFFFFFFFC, 0xFFFFFFFF]]
+                    for (el, sl) in some(combos, 8 if not big else 50):
+                        c = b[:o] + w32(el) + w32(sl) + b[o + 8:]
+                        for t in C3:
+                            add("pair:len-sublen", t + chunks_hex(c, word_cuts(e)))
+            # entry count against what is left: (nentries, first name length)
+            for (ne, nl) in some([(ne, nl) for ne in [0, 1, 2, len(b) // 12, len(b) // 12 + 1, 0xFFFFFFFF] for nl in [0, 1, len(b) - 16, len(b) - 15, 0xFFFFFFFF]], 4 if not big else 20):
+                if len(b) >= 16:
+                    c = b[:8] + w32(ne) + w32(nl) + b[16:]
+                    add("pair:nentries-namelen", rng.choice(C3) + c.hex())
         # ---- 4. bit flips, splices, random bytes
         for e in encs[: (40 if not big else 300)]:
             b = bytearray(e.b)
-            if not b:
-                continue
-            for _ in range(6):
+            for _ in range(5):
                 c = bytearray(b)
                 for _ in range(rng.choice([1, 1, 2, 4])):
                     i = rng.randrange(len(c))
                     c[i] ^= 1 << rng.randrange(8)
-                tgt = rng.choice(["msg|", "msg|", "mini|", "micro|"])
-                add("flip", tgt + chunks_hex(bytes(c), word_cuts(e)))
+                add("flip", rng.choice(["msg|", "msg|", "mini|", "micro|"]) + chunks_hex(bytes(c), word_cuts(e)))
             c = bytearray(b)
             i = rng.randrange(len(c) + 1)
             if rng.random() < 0.5:
                 c[i:i] = rand_bytes(rng, rng.choice([1, 4, 8]))
             else:
                 del c[i:i + rng.choice([1, 4, 8])]
-            add("splice", rng.choice(["msg|", "mini|", "micro|"]) + bytes(c).hex())
+            add("splice", rng.choice(C3) + bytes(c).hex())
         for _ in range(150 if not big else 2000):
             n = rng.choice([0, 1, 3, 4, 11, 12, 13, 16, 24, 40, 100, 300])
             b = rand_bytes(rng, n)
@@ -335,20 +376,19 @@ class CHECK(vlib.Check):
         # ---- 5. nesting: safe depths in the normal stream, one deliberately deep case (finding F5) in its own stream
         for d in [1, 2, 3, 10, 50, 100, 200]:
             add("nest", "nest,%d,0|" % d)
-        for d in [1, 2, 5, 20, 60]:
+        for d in [1, 2, 5, 20, 60, 200]:
             add("nest-overdeclared", "nest,%d,1|" % d)
-        add("nest-overdeclared", "nest,200,1|")
         add("deep", "nest,100000,0|")
 
         # ---- 6. templated parser
-        tm = [m for m in msgs if template_ok(m) and len(m[1]) > 0][: (25 if not big else 150)]
-        for m in tm:
+        tm = [m for m in msgs if template_ok(m) and len(m[1]) > 0][: (20 if not big else 150)]
+        for ti, m in enumerate(tm):
             t = bytes(enc_msg(m).b)
             e = enc_tmsg(m)
             b = bytes(e.b)
             head = "tmsg,%s|" % t.hex()
             add("tmsg-valid", head + chunks_hex(b, word_cuts(e)))
-            for n in sorted(set(list(range(min(len(b), 24))) + [o for (o, _) in e.marks] + [len(b) - 1])):
+            for n in sorted(set(some(range(len(b)), 8) + [o for (o, _) in e.marks] + [o + 3 for (o, _) in e.marks] + [len(b) - 1])):
                 if 0 <= n < len(b):
                     add("tmsg-trunc", head + b[:n].hex())
             for (o, kind) in e.marks:
@@ -356,9 +396,13 @@ class CHECK(vlib.Check):
                 vals = boundary_values(orig, len(b) - o - 4, len(b))
                 if kind == "what":
                     vals = vals[:1]
-                for v in (vals if big else vals[:14] + vals[-10:]):
+                for v in (vals if (big or ti < 2) else some(vals, 5)):
                     add("tmsg-word:" + kind, head + chunks_hex(b[:o] + w32(v) + b[o + 4:], word_cuts(e)))
-            for _ in range(4):
+                if kind == "count" and o + 8 <= len(b):     # (item count, first item size) pairs
+                    rem = len(b) - o - 8
+                    for (ni, sz) in some([(ni, sz) for ni in [orig, orig + 1, 0, 1, 0xFFFFFFFF] for sz in [0, 3, 4, rem - 1, rem, rem + 1, 0x1000, 0x7FFFFFFF, 0xFFFFFFFC, 0xFFFFFFFF]], 6 if not big else 30):
+                        add("tmsg-pair", head + chunks_hex(b[:o] + w32(ni) + w32(sz) + b[o + 8:], word_cuts(e)))
+            for _ in range(3):
                 c = bytearray(b)
                 if c:
                     c[rng.randrange(len(c))] ^= 1 << rng.randrange(8)
@@ -366,39 +410,39 @@ class CHECK(vlib.Check):
             add("tmsg-random", head + rand_bytes(rng, rng.choice([0, 3, 4, 8, 16, 40])).hex())
 
         # ---- 7. MessageIOGateway (stream mode): frames under every segmentation, header corruptions
-        gwmsgs = encs[: (20 if not big else 120)]
+        gwmsgs = [e for e in encs if len(e.b) < 400][: (16 if not big else 120)]
         for idx, e in enumerate(gwmsgs):
             body = bytes(e.b)
             nxt = bytes(gwmsgs[(idx + 1) % len(gwmsgs)].b)
             stream = frame(body) + frame(nxt)
             for cuts in segmentations(rng, len(stream), [(8 + o, k) for (o, k) in e.marks])[: (5 if not big else 12)]:
                 add("gw-mio-valid", "gw,mio,%s|%s" % (rng.choice(["n", "n", str(len(body)), str(len(body) + len(nxt)), "100000"]), chunks_hex(stream, cuts)))
-            add("gw-mio-valid", "minigw|" + chunks_hex(stream, rng.choice(segmentations(rng, len(stream)))))
-            add("gw-mio-valid", "microgw,%d|%s" % (rng.choice([16, 64, 256, 4096]), chunks_hex(stream, rng.choice(segmentations(rng, len(stream))))))
+            add("gw-c-valid", "minigw|" + chunks_hex(stream, rng.choice(segmentations(rng, len(stream)))))
+            add("gw-c-valid", "microgw,%d|%s" % (rng.choice([16, 64, 256, 4096]), chunks_hex(stream, rng.choice(segmentations(rng, len(stream))))))
             add("gw-mio-pkt", "gw,mio,n,%d|%s" % (rng.choice([8, 64, 1400]), frame(body).hex() + ";" + frame(nxt).hex()))
-        for e in gwmsgs[: (8 if not big else 40)]:
+        for e in gwmsgs[: (6 if not big else 40)]:
             body = bytes(e.b)
             L = len(body)
             for maxin in ["n", str(L), str(max(0, L - 1)), "4000"]:
                 sizes = [0, 1, L - 1, L + 1, 2040, 2041, 4000, 4001, 0x7FFFFFFF, 0x80000000] + list(range(0xFFFFFFF8, 0x100000000))
-                if maxin == "n":
-                    sizes = [s for s in sizes if s < 0x7FFFFFF0 or s >= 0xFFFFFFF8][:] if not big else sizes
+                if maxin == "n":       # an unlimited gateway really allocates what the header says: keep the multi-GiB requests out of the quick tier
+                    sizes = [x for x in sizes if x <= 4001 or x >= 0xFFFFFFF8] + ([0x04000000] if not big else [0x04000000, 0x7FFFFFFF, 0x80000000])
                 for sz in sizes:
-                    s = frame(body, size=sz & 0xFFFFFFFF) + frame(body)
-                    add("gw-mio-size", "gw,mio,%s|%s" % (maxin, chunks_hex(s, rng.choice([[], [8], [4, 8, 12]]))))
+                    st = frame(body, size=sz & 0xFFFFFFFF) + frame(body)
+                    add("gw-mio-size", "gw,mio,%s|%s" % (maxin, chunks_hex(st, rng.choice([[], [8], [4, 8, 12]]))))
                 for enc in [0, ENC_DEFAULT - 1, ENC_DEFAULT + 10, ENC_DEFAULT + 11, 0xFFFFFFFF, ENC_DEFAULT + 3]:
-                    s = frame(body, enc=enc) + frame(body)
-                    add("gw-mio-enc", "gw,mio,%s|%s" % (maxin, chunks_hex(s, rng.choice([[], [7], [8, 9]]))))
+                    st = frame(body, enc=enc) + frame(body)
+                    add("gw-mio-enc", "gw,mio,%s|%s" % (maxin, chunks_hex(st, rng.choice([[], [7], [8, 9]]))))
             for _ in range(4):
                 c = bytearray(frame(body) + frame(body))
                 i = rng.randrange(8, len(c))
                 c[i] ^= 1 << rng.randrange(8)
                 add("gw-mio-flip", "gw,mio,%s|%s" % (rng.choice(["n", "5000"]), chunks_hex(bytes(c), rng.choice(segmentations(rng, len(c))))))
                 add("gw-c-flip", rng.choice(["minigw|", "microgw,256|"]) + chunks_hex(bytes(c), rng.choice(segmentations(rng, len(c)))))
-            for sz in [0, 1, L + 1, 0x7FFFFFFF, 0x80000000, 0xFFFFFFF7, 0xFFFFFFF8, 0xFFFFFFFF]:
-                s = frame(body, size=sz) + frame(body)
-                add("gw-c-size", "minigw|" + chunks_hex(s, [8]))
-                add("gw-c-size", "microgw,%d|%s" % (rng.choice([16, 256]), chunks_hex(s, [8])))
+            for sz in [0, 1, L + 1, 0x04000000, 0xFFFFFFF7, 0xFFFFFFF8, 0xFFFFFFFF] + ([0x7FFFFFFF, 0x80000000] if big else []):
+                st = frame(body, size=sz) + frame(body)
+                add("gw-c-size", "minigw|" + chunks_hex(st, [8]))
+                add("gw-c-size", "microgw,%d|%s" % (rng.choice([16, 256]), chunks_hex(st, [8])))
         for _ in range(40 if not big else 400):
             n = rng.choice([1, 7, 8, 9, 20, 60])
             b = rand_bytes(rng, n)
@@ -410,26 +454,27 @@ class CHECK(vlib.Check):
             body = bytes(e.b)
             co = zlib.compressobj(6)
             z = w32(2053925219) + w32(len(body)) + co.compress(body) + co.flush(zlib.Z_SYNC_FLUSH)
-            s = frame(z, enc=ENC_DEFAULT + 6)
-            add("gw-zlib", "gw,mioz,n|" + s.hex())
-            for rawlen in [0, 1, len(body) - 1, len(body) + 1, 0x7FFFFFFF, 0x80000000, 0xFFFFFFFF, 1 << 20]:
+            st = frame(z, enc=ENC_DEFAULT + 6)
+            add("gw-zlib", "gw,mioz,n|" + st.hex())
+            for rawlen in [0, 1, len(body) - 1, len(body) + 1, 1 << 20, 0x04000000, 0x80000000, 0xFFFFFFFF] + ([0x7FFFFFFF] if big else []):
                 z2 = z[:4] + w32(rawlen) + z[8:]
                 add("gw-zlib", "gw,mioz,n|" + frame(z2, enc=ENC_DEFAULT + 6).hex())
             for _ in range(3):
-                c = bytearray(s)
+                c = bytearray(st)
                 i = rng.randrange(8, len(c))
                 c[i] ^= 1 << rng.randrange(8)
                 add("gw-zlib", "gw,mioz,n|" + bytes(c).hex())
 
         # ---- 8. the other gateways: valid streams from a sender of the same kind, then corrupted
-        kinds = ["tmpl,n", "tmpl,300", "ptun,1400,n,0,1", "ptun,64,n,1,1", "ptun,64,200,1,0", "ptun,1400,n,0,1,1", "mptun,1400,0,1", "mptun,64,1,1", "mptun,1400,1,0",
+        kinds = ["tmpl,n", "tmpl,300", "ptun,1400,100000,0,1", "ptun,64,100000,1,1", "ptun,64,200,1,0", "ptun,1400,n,0,1,1", "mptun,1400,0,1", "mptun,64,1,1", "mptun,1400,1,0",
                  "ws,0,0,0", "ws,1,0,0", "ws,0,0,1", "ws,1,0,1", "text,0,0", "text,1,0", "text,0,1", "text,0,0,64", "raw,0,n", "raw,4,n", "raw,1,n", "raw,0,n,64", "slip"]
-        textmsg = enc_msg((tcode(b"PRtx") if False else 0x74787473, [(b"tl", TC["CSTR"], "CSTR", [b"hello", b"", b"world \xc3\xa9", b"x" * 70])]))
-        rawmsg = enc_msg((0x72617764, [(b"rd", TC["RAWT"], "RAWT", [b"\x01\xc0\xdb\x02\xdc\xdd", b"", bytes(range(256))])]))
+        textmsg = enc_msg((0x74787473, [(b"tl", TC["CSTR"], "CSTR", [b"hello", b"", b"world \xc3\xa9", b"x" * 70])]))
+        rawmsg = enc_msg((0x72617764, [(b"rd", TC["RAWT"], "RAWT", [b"\x01\xc0\xdb\x02\xdc\xdd", b"\xdb", bytes(range(256))])]))
+        okmsgs = [bytes(e.b) for e, ok in zip(encs, strict) if ok and len(e.b) < 600]
         reqs = []
         for kd in kinds:
             base = kd.split(",")[0]
-            ms = [bytes(e.b) for e in rng.sample(encs, 3)]
+            ms = some(okmsgs, 3)
             if base in ("text",):
                 ms = [bytes(textmsg.b)]
             if base in ("raw", "slip"):
@@ -441,6 +486,7 @@ class CHECK(vlib.Check):
         for (kd, ms), wire in zip(reqs, wires):
             base = kd.split(",")[0]
             allb = b"".join(wire)
+            unlimited = (base == "ptun" and kd.split(",")[2] == "n")
             pk = base in ("ptun", "mptun") or (base in ("text", "raw") and kd.count(",") >= 3)
             if wire:
                 if pk:
@@ -461,7 +507,8 @@ class CHECK(vlib.Check):
                         ws[j] = ws[j][: rng.randrange(len(ws[j]))]
                     elif r < 0.9 and len(ws[j]) >= 4:
                         i = rng.randrange(0, len(ws[j]) - 3) & ~3 if rng.random() < 0.7 else rng.randrange(0, len(ws[j]) - 3)
-                        ws[j][i:i + 4] = w32(rng.choice([0, 1, len(ws[j]), len(ws[j]) + 1, 0x7FFFFFFF, 0x80000000, 0xFFFFFFF8, 0xFFFFFFFF, 0xFFFF, 0x10000]))
+                        huge = [0x04000000] if unlimited or base in ("ws", "tmpl") else [0x7FFFFFFF, 0x80000000]
+                        ws[j][i:i + 4] = w32(rng.choice([0, 1, len(ws[j]), len(ws[j]) + 1, 0xFFFFFFF8, 0xFFFFFFFF, 0xFFFF, 0x10000] + huge))
                     else:
                         i = rng.randrange(len(ws[j]) + 1)
                         ws[j][i:i] = rand_bytes(rng, rng.choice([1, 2, 8]))
@@ -474,8 +521,9 @@ class CHECK(vlib.Check):
                 n = rng.choice([1, 2, 6, 12, 13, 24, 25, 40, 200])
                 b = rand_bytes(rng, n)
                 if base == "ptun" and n >= 24:
+                    tot = [0, 1, n - 24, 100, 0x04000000] + ([] if unlimited else [0x7FFFFFFF, 0xFFFFFFFF])
                     b = w32(1114989680) + w32(rng.choice([0, 1])) + w32(rng.randrange(4)) + w32(rng.choice([0, 0, 1, n, 0xFFFFFFFF])) + \
-                        w32(rng.choice([0, 1, n - 24, n - 23, 0xFFFFFFFF, 0x7FFFFFFF])) + w32(rng.choice([0, 1, n - 24, 100, 0x7FFFFFFF, 0xFFFFFFFF])) + b[24:]
+                        w32(rng.choice([0, 1, n - 24, n - 23, 0xFFFFFFFF, 0x7FFFFFFF])) + w32(rng.choice(tot)) + b[24:]
                 if base == "mptun" and n >= 12:
                     b = w32(1836345197) + w32(0) + w32(rng.choice([0, 1, 1 << 24, 9 << 24, 255 << 24])) + \
                         (w32(rng.choice([0, 1, n - 16, n - 15, 0xFFFFFFFF])) + b[16:] if n >= 16 else b[12:])
@@ -490,6 +538,9 @@ class CHECK(vlib.Check):
                         ext = struct.pack(">Q", rng.choice([0, 1, 65536, 10 * 1024 * 1024, 10 * 1024 * 1024 + 1, 1 << 31, 1 << 32, (1 << 63) - 1, 1 << 63]))
                     b = bytes([first, mask | ln]) + ext + (b"\x01\x02\x03\x04" if mask else b"") + b
                 add("gw-%s-random" % base, "gw,%s|%s" % (kd, chunks_hex(b, rng.choice(segmentations(rng, len(b))))))
+        # a long unbroken run through the raw gateway in minimum-chunk mode (its receive path recurses once per completed chunk)
+        for mn, n in [(1, 64), (1, 3000 if not big else 20000), (4, 4096)]:
+            add("gw-raw-long", "gw,raw,%d,n|%s" % (mn, rand_bytes(rng, n).hex()))
         # websocket handshakes
         hs_req = b"GET / HTTP/1.1\r\nHost: h\r\nUpgrade: websocket\r\nConnection: Upgrade\r\nSec-WebSocket-Key: dGhlIHNhbXBsZSBub25jZQ==\r\nSec-WebSocket-Version: 13\r\n\r\n"
         for hb in [hs_req, hs_req[:-2], hs_req.replace(b"Upgrade: websocket\r\n", b""), b"GET\r\n\r\n", b"\r\n\r\n", b"A" * 300 + b"\r\n\r\n",
@@ -500,7 +551,6 @@ class CHECK(vlib.Check):
             add("gw-ws-handshake", "gw,ws,0,1,0|" + (b"x" * 26000).hex())
 
         # ---- 9. directed witnesses of the suspected findings (minimal replays)
-        f1 = enc_msg((0, []))
         f1b = bytes(w32(PM) + w32(0) + w32(1) + w32(2) + b"s\0" + w32(TC["CSTR"]) + w32(9) + w32(0x04000000) + w32(1) + b"\0")
         add("directed-F1", "msg|" + f1b.hex())
         add("directed-F1", "mini|" + f1b.hex())
@@ -511,6 +561,12 @@ class CHECK(vlib.Check):
         # F3: body size word >= 2^32-8 with unlimited max incoming size
         for sz in (0xFFFFFFF8, 0xFFFFFFFC, 0xFFFFFFFF):
             add("directed-F3", "gw,mio,n|" + (w32(sz) + w32(ENC_DEFAULT)).hex())
+        # pointer/tag type codes on the wire (not flattenable; an array of them reaches an MCRASH)
+        for tc in (TC["PNTR"], TC["TAGT"]):
+            for payload in (b"", b"\0" * 8, b"\0" * 16, w32(2) + w32(0) + w32(0)):
+                add("directed-ptrtag", "msg|" + (w32(PM) + w32(0) + w32(1) + w32(2) + b"p\0" + w32(tc) + w32(len(payload)) + payload).hex())
+        # bool array holding bytes other than 0/1
+        add("directed-bool", "msg|" + (w32(PM) + w32(0) + w32(1) + w32(2) + b"b\0" + w32(TC["BOOL"]) + w32(3) + b"\x01\xff\x02").hex())
         return out
 
     def nontrivial(self, case):
